@@ -12,7 +12,7 @@ git -C /repo worktree add -q $WT HEAD || exit 2
 cd $WT
 echo "== demo on the unchanged tree"; bash $OUT/demo.sh $WT > $OUT/demo_clean.log 2>&1; RC_CLEAN=$?; echo "rc=$RC_CLEAN"
 git apply $OUT/patch.diff || { echo "patch does not apply"; git -C /repo worktree remove --force $WT; exit 3; }
-echo "== test suite with the change"; CARGO_TARGET_DIR=/tmp/seedtest-target cargo test --workspace --offline > $OUT/tests.log 2>&1; RC_T=$?
+echo "== test suite with the change"; CARGO_TARGET_DIR=/tmp/seedtest-target-$NAME cargo test --workspace --offline > $OUT/tests.log 2>&1; RC_T=$?
 PASS=$(grep -E "^test result" $OUT/tests.log | awk '{s+=$4; f+=$6} END {print s" passed, "f" failed"}'); echo "rc=$RC_T $PASS"
 echo "== demo with the change"; bash $OUT/demo.sh $WT > $OUT/demo_changed.log 2>&1; RC_CH=$?; echo "rc=$RC_CH"
 cd /verif
@@ -39,4 +39,5 @@ meta["confirmed_by_coordinator"] = {"demo_exit_on_unchanged_tree": int(rc_clean)
                                     "how": "lib/seedtest.sh: scratch worktree of /repo HEAD, demo, git apply, cargo test --workspace --offline, demo, VERIF_REPO=<worktree> ./check <id> quick"}
 json.dump(meta, open(p, "w"), indent=1)
 PY
-git -C /repo worktree remove --force $WT; rm -rf /verif/.cache/alt
+TAG=$(echo "${WT#/}" | sed -E "s/[^A-Za-z0-9]+/_/g")
+git -C /repo worktree remove --force $WT; rm -rf "/verif/.cache/alt/$TAG" /tmp/seedtest-target-$NAME
